@@ -61,6 +61,28 @@ class Check(Property):
                     b[s] = b.get(s, Fraction(0)) + e
                 return {k: v for k, v in b.items() if v != 0}
             out.append(mk("compound triple", a, respell(), respell()))
+        # cache-key twins: CPython has hash(-1) == hash(-2), so containers that differ only in -1 / -2
+        # exponents collide in any hash-keyed memo; both members are converted in the same registry
+        for i in range(150 if self.tier == "quick" else 1500):
+            n_ = rng.randint(1, 2)
+            base_units = rng.sample(P.rational, n_)
+            exps = [Fraction(rng.choice([-1, -2])) for _ in base_units]
+
+            def build(es):
+                a_ = {P.spelling(rng, u_, allow_prefix=False, allow_plural=False): e for u_, e in zip(base_units, es)}
+                b_ = {}
+                for u_, e in zip(base_units, es):
+                    d = tuple(sorted(P.proj.dimensionality({u_: Fraction(1)}).items()))
+                    alt = rng.choice([z for z in P.by_dim.get(d, []) if z in P.rational] or [u_])
+                    b_[alt] = b_.get(alt, Fraction(0)) + e
+                return a_, {k: v for k, v in b_.items() if v != 0}
+            st = rng.getstate()
+            a1, b1 = build(exps)
+            rng.setstate(st)
+            a2, b2 = build([Fraction(-3) - e for e in exps])     # -1 <-> -2, same units
+            if b1 and b2 and len(a1) == len(base_units):
+                out.append(mk("hash twin", a1, b1, a1))
+                out.append(mk("hash twin", a2, b2, a2))
         if self.tier == "thorough":
             for d, l in P.by_dim.items():
                 l = [n_ for n_ in l if n_ in P.rational]
